@@ -2132,8 +2132,6 @@ TSTree *ts_parser_parse(
   }
 
   ts_lexer_set_input(&self->lexer, input);
-  array_clear(&self->included_range_differences);
-  self->included_range_difference_index = 0;
 
   self->operation_count = 0;
 
@@ -2141,6 +2139,8 @@ TSTree *ts_parser_parse(
     LOG("resume_parsing");
     if (self->canceled_balancing) goto balance;
   } else {
+    array_clear(&self->included_range_differences);
+    self->included_range_difference_index = 0;
     ts_parser__external_scanner_create(self);
     if (self->has_scanner_error) goto exit;
 
